@@ -634,3 +634,21 @@ package immutable
 //@     requires [min_time_is_the_time_of_a_row_holding_a_value] col.NilCount <= 0 || (tested && !wasNil && val == times[row])
 //@   store BooleanPreAgg.maxTime
 //@     requires [max_time_is_the_time_of_a_row_holding_a_value] col.NilCount <= 0 || (tested && !wasNil && val == times[row])
+
+// ================================================================ C03: streaming compaction resumes a split at ONE place
+// When the output file is full (segment limit) the series' chunk is split: the rest continues in the next output file,
+// from source chunk `iteratorStart`, segment `segmentIndex`. Only THAT source chunk is resumed in the middle: every later
+// source chunk of the series is walked from its first segment (starting them all at `segmentIndex` drops their first
+// segments - rows disappear from the compacted files).
+//@ prop C03
+//@ func (*StreamIterators).compactColumn
+//@   stable immutable.StreamIterators.iteratorStart immutable.StreamIterators.segmentIndex
+//@   requires c != nil && c.iteratorStart >= 0
+//@   ghost lastItr int = -1
+//@   call (*StreamIterators).continueMerge
+//@     requires [a_later_source_chunk_is_walked_from_its_first_segment] arg1 != lastItr ==> arg0 == (arg1 == c.iteratorStart ? c.segmentIndex : 0)
+//@     set lastItr = arg1
+//@   loop 1
+//@     invariant lastItr < itrIndex
+//@   loop 2
+//@     invariant lastItr <= itrIndex && (lastItr < itrIndex ==> segIndex == (itrIndex == c.iteratorStart ? c.segmentIndex : 0))
